@@ -1,15 +1,55 @@
-import Grass.Serialize
+import GrassProofs.Lemmas.SerializeTree
 /-
   C05 — Output is well-formed, Sass-free CSS and a fixed point of the compiler.
-  Property theorems about the serializer model `Grass.Serialize` (first cut, being widened).
+
+  Property theorems about the serializer model `Grass/Serialize.lean` (tied to grass byte for byte by
+  tools/props/c05.py).  P̂ predicates (`wellFormed`, `quotedOk`, `unescape`, `hasCharsetOrBom`, `sassFree`)
+  and the guard `treeOk` are defined in the model file and are the same functions the driver
+  evaluates on grass's own output.
+
+  Full statement (kept visible; what is proved below is marked):
+    for every flattened tree t made of CSS-representable leaves, every style st and charset flag cs,
+    with out = serialize st cs t:
+      (1) wellFormed out                                   — PROVED  (C05_blocks_balanced)
+      (2) every quoted string token is closed, has no raw control character / newline, escapes its
+          own quote, and reads back to the original string — PROVED  (C05_quoted_wellformed, C05_quoted_roundtrip)
+      (3) hasCharsetOrBom out ↔ cs ∧ body has a non-ASCII char — PROVED (C05_charset_iff)
+      (4) invisible nodes write nothing; both loops skip the same nodes — PROVED (C05_no_invisible_output_*)
+      (5) sassFree out (no placeholder / & / $var / #{ / Sass at-rule outside strings and comments)
+                                                            — NOT PROVED here (checked on grass's output by the driver)
+      (6) read (serialize st cs t) = canon t, hence recompiling reproduces the rules (fixed point)
+                                                            — NOT PROVED (checked on the real parser; C06_style_equiv_model_partial
+                                                              proves the read-back for declaration-only trees)
 -/
 namespace Grass.Serialize
 
+def C05_full : Prop :=
+  ∀ (st : Style) (cs : Bool) (t : List Stmt), treeOk st t = true →
+    wellFormed (serialize st cs t) = true ∧ sassFree (serialize st cs t) = true
+
+/-- Reading back what `visit_quoted_string` wrote gives the original string — for EVERY string
+    (quotes of both kinds, backslashes, control characters, non-ASCII). -/
+theorem C05_quoted_roundtrip (s : Str) : unescape (quote s) = some s := unescape_quote s
+
+example : unescape (quote ['a', '"', '\'', '\\', '\n', 'f', '\x01', ' ', 'é']) =
+    some ['a', '"', '\'', '\\', '\n', 'f', '\x01', ' ', 'é'] := by decide +kernel
+
+/-- The token written for a quoted string starts and ends with the same quote character and, in
+    between, contains no raw control character that must be escaped (so no raw newline) and no
+    occurrence of its own quote or of a backslash that is not part of an escape. -/
+theorem C05_quoted_wellformed (s : Str) : quotedOk (quote s) = true := quotedOk_quote s
+
+example : quote ['"', '\'', '\n', '1'] = ['"', '\\', '"', '\'', '\\', 'a', ' ', '1', '"'] := by decide +kernel
+
+/-- A quoted string is one closed string token for the scanner, whatever it contains (braces,
+    comment openers, quotes …). -/
+theorem C05_quoted_scans_closed (s : Str) (d : Nat) :
+    run ⟨.normal, d⟩ (quote s) = some ⟨.normal, d⟩ := N_quote s d
+
 /-- The header decision of `finish` (serializer.rs:635): the output starts with `@charset "UTF-8";`
     (expanded) or a BOM (compressed) exactly when charset output is allowed and the body written
-    before `finish` contains a non-ASCII character — provided the body does not itself start
-    with a BOM or an `@charset` rule (the guard: grass never writes one, the visitor drops
-    `@charset`). -/
+    before `finish` contains a non-ASCII character — guard: the body itself does not start with a
+    BOM or `@charset` (grass never writes one: the evaluator drops `@charset`). -/
 theorem C05_charset_iff (st : Style) (cs : Bool) (t : List Stmt)
     (hg : hasCharsetOrBom (finish st false (topLoop st Top.init t)) = false) :
     hasCharsetOrBom (serialize st cs t) = (cs && (body st t).any isNonAscii) := by
@@ -18,5 +58,59 @@ theorem C05_charset_iff (st : Style) (cs : Bool) (t : List Stmt)
   unfold finish at *
   cases cs <;> cases h : T.buf.any isNonAscii <;> cases st <;>
     simp_all [Style.isCompressed, hasCharsetOrBom, startsWith, charsetPrefix, lit]
+
+example : hasCharsetOrBom (serialize .compressed true
+    [.rule true [⟨false, [.compound [.text ['a']]]⟩] (.cons (.decl ['b'] false (.atom (.quoted ['é']))) .nil)]) = true := by
+  decide +kernel
+
+/-- Every `{` is closed, every string and comment is closed, no `}` is unmatched — for every tree
+    whose opaque leaf texts are themselves balanced (`treeOk`; quoted strings are unconstrained),
+    both styles, with or without the charset header.  By mutual induction on the tree. -/
+theorem C05_blocks_balanced (st : Style) (cs : Bool) (t : List Stmt) (h : treeOk st t = true) :
+    wellFormed (serialize st cs t) = true :=
+  wellFormed_of_N _ (serialize_N st cs t h)
+
+example : treeOk .compressed
+    [.media false [⟨none, some ['x'], [], true⟩]
+      (.cons (.rule true [⟨false, [.compound [.text ['a']]]⟩]
+        (.cons (.decl ['b'] false (.atom (.quoted ['{', '/', '*', '"']))) .nil)) .nil)] = true := by decide +kernel
+
+/-- An invisible node (empty rule, placeholder-only selector, all-invisible at-rule body, blank
+    value) writes no bytes and reports `did_write = false`. -/
+theorem C05_no_invisible_output_stmt (st : Style) (ind : Nat) (s : Stmt) (h : s.isInvisible = true) :
+    visitStmt st ind s = (false, []) := visit_invisible st ind s h
+
+/-- … and a visible one always reports `did_write = true`: the `is_invisible` test of the top-level
+    loop (lib.rs:205) and the `did_write` test of `write_children` select the same nodes. -/
+theorem C05_no_invisible_output_agree (st : Style) (ind : Nat) (s : Stmt) :
+    (visitStmt st ind s).1 = !s.isInvisible := by
+  cases h : s.isInvisible
+  · simpa using visit_visible st ind s h
+  · simp [visit_invisible st ind s h]
+
+/-- Top level: removing an invisible node anywhere does not change the output. -/
+theorem C05_no_invisible_output_top (st : Style) (cs : Bool) (a b : List Stmt) (s : Stmt)
+    (h : s.isInvisible = true) : serialize st cs (a ++ s :: b) = serialize st cs (a ++ b) := by
+  unfold serialize
+  rw [topLoop_append, topLoop_append]
+  simp [topLoop, h]
+
+/-- Inside a block: an invisible child contributes nothing in front of its siblings. -/
+theorem C05_no_invisible_output_children (st : Style) (ind : Nat) (s : Stmt) (ss : Stmts)
+    (h : s.isInvisible = true) : childrenLoop st ind (.cons s ss) = childrenLoop st ind ss :=
+  childrenLoop_invisible_cons st ind s ss h
+
+example : (Stmt.rule true [⟨false, [.compound [.placeholder ['p']]]⟩]
+    (.cons (.decl ['b'] false (.atom (.raw ['c']))) .nil)).isInvisible = true := by decide +kernel
+
+/-- Caveat made explicit (the code as it stands, serializer.rs:1040-1069): `write_children` decides
+    "last child" before looking at visibility, so an invisible LAST child leaves the `;` of the
+    declaration before it in compressed output (`a{b:c;}` instead of `a{b:c}`).  Harmless (the `;`
+    is optional) but it is why `C05_no_invisible_output_children` is stated for a leading node. -/
+theorem C05_trailing_invisible_keeps_semicolon :
+    childrenLoop .compressed 2 (.cons (.decl ['b'] false (.atom (.raw ['c'])))
+      (.cons (.decl ['d'] false (.atom (.raw []))) .nil)) = ['b', ':', 'c', ';'] ∧
+    childrenLoop .compressed 2 (.cons (.decl ['b'] false (.atom (.raw ['c']))) .nil) = ['b', ':', 'c'] := by
+  decide +kernel
 
 end Grass.Serialize
